@@ -145,16 +145,24 @@ class AnnotGen:
         raise RuntimeError("could not draw a fresh atom")
 
     # ---------------- definitions
-    def make_defs(self, n=None):
+    def make_defs(self, n=None, allow_empty=False):
         """Create a definition set: list of dict(name, takes_value, content(items), ph(node path of placeholder))."""
         rng = self.rng
         n = n or rng.randrange(2, 5)
         self.defs = []
         if "Definition" not in self.sp or "Def" not in self.sp:
             return self.defs
+        # schemas of the 8.3 generation allow printable non-ASCII letters in names; some of them change under lower()
+        # and casefold() differently (sharp s, final sigma)
+        gen83 = (self.o.version or "").startswith("8.3") or (self.o.with_standard or "").startswith("8.3")
+        names = ["Mydef", "Cond", "Stim-type", "Blk_a", "Resp"] + (["Ma\u00df", "Gr\u00f6\u00dfe", "\u039f\u0394\u039f\u03a3"] if gen83 else [])
         for i in range(n):
             takes = rng.random() < 0.5 and bool(self.values)
-            name = rng.choice(["Mydef", "Cond", "Stim-type", "Blk_a", "Resp"]) + str(i)
+            name = rng.choice(names) + str(i)
+            if allow_empty and not takes and rng.random() < 0.2:
+                # the legal degenerate definition without contents
+                self.defs.append(dict(name=name, takes_value=False, content=[], ph=None))
+                continue
             saved = self.used
             self.used = set()
             content = [self._plain_atom() for _ in range(rng.randrange(1, 3))]
@@ -192,7 +200,7 @@ class AnnotGen:
         out = []
         for d in self.defs:
             nm = d["name"] + ("/#" if d["takes_value"] else "")
-            out.append(f"(Definition/{nm}, ({render(d['content'])}))")
+            out.append(f"(Definition/{nm}, ({render(d['content'])}))" if d["content"] else f"(Definition/{nm})")
         return out
 
     def def_value(self, d):
@@ -219,6 +227,8 @@ class AnnotGen:
             return t
         t = tag("Def-expand", suffix, self.sp["Def-expand"].path, "def-expand")
         t["def"], t["val"] = d["name"], val
+        if not d["content"]:
+            return group([t], "def-expand-group")          # a definition without contents expands to the tag alone
         kids = [t, group(self.expansion(d, val), "def-content")]
         if rng.random() < 0.3:
             kids.reverse()                       # the content group may be written before the tag
@@ -559,7 +569,10 @@ def mutate(gen, items, kind, rng):
     elif kind == "altered-def-expand":
         if "Def-expand" not in gen.sp or not gen.defs:
             return None
-        d = rng.choice(gen.defs)
+        with_content = [x for x in gen.defs if x["content"]]
+        if not with_content:
+            return None
+        d = rng.choice(with_content)
         val = gen.def_value(d) if d["takes_value"] else None
         content = gen.expansion(d, val)
         how = rng.choice(["add", "remove", "swap", "regroup", "regroup"])
